@@ -12,6 +12,8 @@ B = L + "Batch::"
 
 
 def run(c):
+    import r9
+    c.r9("C18")
     # --- closed writer sets
     c.r3("db-put", "re:heed::databases::database::Database::put$|heed::.*Database::put$", {B + "put", S + "set_migration_complete", S + "migrate_to_default_env"}, floor_sites=4)
     c.r3("db-delete", "re:heed::.*Database::delete$", {B + "delete"}, floor_sites=1)
